@@ -818,6 +818,17 @@ def _isolated(fn: Callable[..., dict], timeout: float = 60.0) -> Callable[..., d
                 def early(result: dict) -> None:
                     if not sent[0]:
                         sent[0] = True
+                        if os.environ.get("VERIF_COVERAGE"):
+                            # tools/coverage_map.py only: the parent kills this process as soon as it has the observation,
+                            # so the line-coverage data collected here is written out first
+                            try:
+                                import coverage
+                                c = coverage.Coverage.current()
+                                if c is not None:
+                                    c.stop()
+                                    c.save()
+                            except Exception:
+                                pass
                         with os.fdopen(w, "wb", closefd=False) as f:
                             pickle.dump(result, f)
                         os.close(w)
